@@ -192,6 +192,7 @@ def reference(case, cwd, roots=("r",)):
         return env.prune
 
     w = refwalk.Walk(case.get("mode", "P"), opts["mindepth"], opts["maxdepth"], opts["depth_first"], True, cwd)
+    w.xdev = bool(case.get("xdev"))
     try:
         for r in roots:
             w.run(r, on_visit)
